@@ -67,6 +67,7 @@ type Out struct {
 	CallGraphs map[string]*CG    `json:"callgraphs"`
 	ErrSites   []ErrSite         `json:"errsites"`
 	Globals    []Global          `json:"globals"`
+	FieldFx    []*FxType         `json:"fieldfx"`
 }
 
 func main() {
@@ -125,6 +126,13 @@ func main() {
 		}
 	}
 	globals(prog, pkgs, out)
+	for _, tn := range [][2]string{{"pkg/sql/parser", "Parser"}, {"pkg/sql/tokenizer", "Tokenizer"}} {
+		if p := byPath[mod+"/"+tn[0]]; p != nil {
+			if fx := fieldFx(prog, p, tn[1]); fx != nil {
+				out.FieldFx = append(out.FieldFx, fx)
+			}
+		}
+	}
 
 	b, _ := json.MarshalIndent(out, "", " ")
 	if err := os.WriteFile(*outJSON, b, 0o644); err != nil {
